@@ -8,12 +8,12 @@
    loss or graceful restart may hit between any two phases.  Generator only: the verdict is
    taken by Trace_CsContract on what the real engine did. *)
 EXTENDS Integers, Sequences, FiniteSets, TLC
-CONSTANTS N, MaxRound, MaxCrash, MaxOps
+CONSTANTS H, N, MaxRound, MaxCrash, MaxOps
 Vals == 0..(N - 1)
 VARIABLES me, rnd, ph, rval, seen, crashes, hist
 vars == <<me, rnd, ph, rval, seen, crashes, hist>>
 Others == Vals \ {me}
-Proposer(r) == (1 + r) % N
+Proposer(r) == (H + r) % N
 BlockOf(i) == "B" \o ToString(i)
 Nil == "nil"
 \* rval: the value proposed in the current round ("none" if nothing was proposed)
@@ -63,6 +63,8 @@ PcPhase ==
 EndPhase ==
   /\ ph = "end" /\ rnd < MaxRound
   /\ \/ Add(<<>>)
+     \/ \E v \in SeenVals \ {"none", "own"}, S \in TwoOf \cup {Others} :      \* a fast-sync result
+            Add(<<[op |-> "block", r |-> rnd, from |-> S, val |-> v]>>)
      \/ \E v \in (SeenVals \cup {Nil}) \ {"none"} : Add(<<Votes("pv", rnd, Others, v)>>)
      \/ Add(<<W>>)
   /\ rnd' = rnd + 1 /\ ph' = "prop" /\ rval' = "none" /\ UNCHANGED <<me, seen, crashes>>
